@@ -51,6 +51,9 @@ type c08Item struct {
 	// error path 2: prefixes of msg that the reference decoder rejects (cuts inside known and
 	// unknown fields)
 	cutMsgs [][]byte
+	// errFirst: every goroutine's first call on this (fresh) type is the failing decode, so
+	// that the type's first errors are raised simultaneously
+	errFirst bool
 }
 
 func newC08Item(r *gen.Rand, s *schema.Struct) *c08Item {
@@ -271,6 +274,9 @@ func runC08(c *harness.Ctx, idx int) {
 			fresh = append(fresh, newC08Item(r, s))
 		}
 	}
+	for _, it := range fresh {
+		it.errFirst = it.missMsg != nil && r.Bool()
+	}
 	// invalid definitions whose failure sits behind already linked nested types:
 	// their rejection (and its cleanup) runs concurrently with the valid first uses
 	var invalid []reflect.Type
@@ -360,6 +366,9 @@ func runC08(c *harness.Ctx, idx int) {
 			for _, oi := range order {
 				it := fresh[assign[g][oi]]
 				op := gr.Intn(7)
+				if it.errFirst {
+					op = 6
+				}
 				if m := it.use(op); m != "" {
 					note("first use (op %d) of fresh type %s by goroutine %d: %s", op, it.s.Describe(), g, m)
 				}
